@@ -118,7 +118,17 @@ def run(ctx):
                 all(any(g.can_reach(d, s, follow_exc=False) for d in nodes) for s in stop_nodes)
             c.ob("R4", ok, holder, f"{v}:unregister-before-stop:{cont}", f"the child is removed from {cont} before it is stopped" if ok else
                  f"stopChild does not remove the child from {cont} before stopping it: a stopped child stays addressable / keeps receiving", stop_calls[0])
-        warn = [x for x in own_nodes(holder.node) if isinstance(x, ast.If) and "actor is None" in norm(x.test) and any(isinstance(y, ast.Return) for y in x.body)]
+        # as a fact: every stop of the resolved actor runs only where the target did resolve (guard clause, if/else - either spelling)
+        from sa.util import canon_atom as _ca4
+        def _not_none(call):
+            for a_, pol_ in guards_at(holder, call):
+                t_ = _ca4(a_, pol_)
+                if t_[0] == "is" and "None" in (t_[1], t_[2]) and t_[3] is False:
+                    return True
+                if t_[0] == "truthy" and t_[3] is True and t_[1] in ("actor", "child", "target"):
+                    return True
+            return False
+        warn = bool(stop_calls) and all(_not_none(x) for x in stop_calls)
         c.ob("R4", bool(warn), holder, f"{v}:unresolved-target-dropped", "an unresolved stopChild target is dropped" if warn else
              "stopChild no longer returns when its target does not resolve", holder.node)
     # ---- R8 unresolved / ambiguous targets are dropped -------------------------------------
